@@ -438,6 +438,22 @@ func (w *world) enableSnapshots() {
 		m := map[string]string{"lock.TryLock": "lock.Grant", "lock.Lock": "lock.Grant", "lock.Unlock": "lock.Unlock", "sess.AddLock": "sess.AddLock", "sess.RemoveLock": "sess.RemoveLock"}[e.Method]
 		w.mu.Lock()
 		defer w.mu.Unlock()
+		if e.Method == "sess.DestroySession" {
+			// the session's entry leaves the bookkeeping; which holds it listed is known when the call returns
+			if e.Phase == "inv" {
+				w.cev = append(w.cev, fmt.Sprintf("inv %d sess.DestroySession -", e.Id))
+				return
+			}
+			ps := []string{}
+			for _, l := range e.Locks {
+				ps = append(ps, fmt.Sprint(w.pairLocked(l[0], l[1])))
+			}
+			if len(ps) == 0 {
+				ps = []string{"-"}
+			}
+			w.cev = append(w.cev, fmt.Sprintf("ret %d 1 %s", e.Id, strings.Join(ps, ",")))
+			return
+		}
 		if e.Phase == "inv" {
 			if m == "" {
 				return
@@ -593,6 +609,30 @@ func capacityMonitor(w *world, name string, size int, base int) {
 	free := w.probeFree(name, p32(int32(size)))
 	if live >= 0 && live <= size && free != size-live {
 		w.v("conc:capacity:free-units", "lock %q of size %d has %d acknowledged live holders but %d further TryLocks succeed", name, size, live, free)
+	}
+}
+
+// unackedHoldMonitor: once every call has returned, each key in the lock table was handed to a caller by
+// a successful Lock/TryLock answer ("a lock of size N is held by at most N keys" counts keys that were
+// granted: a unit taken for a request that was answered with an error is capacity nobody can give back).
+func unackedHoldMonitor(w *world, name string) {
+	_, keys, ok := w.tableKeys(name)
+	if !ok {
+		return
+	}
+	granted := map[string]bool{}
+	for _, k := range w.keys {
+		granted[k] = true
+	}
+	for _, c := range w.calls {
+		if c.Done && c.Ok && c.Key != "" {
+			granted[c.Key] = true
+		}
+	}
+	for _, k := range keys {
+		if !granted[k] {
+			w.v("conc:capacity:free-units:unacknowledged-hold", "lock %q: after every call has returned the table holds a key that no successful Lock/TryLock answer carried (%s): the unit is taken and no client can release it", name, w.summary())
+		}
 	}
 }
 
@@ -1029,7 +1069,7 @@ func templates() []template {
 				},
 			}
 		}},
-		{name: "destroy||blocked-lock(same-session)||unlock(other)", props: []string{"C06", "C03"}, bound: 2, prog: func(t *testing.T) conc.Program {
+		{name: "destroy||blocked-lock(same-session)||unlock(other)", props: []string{"C06", "C03", "C02"}, bound: 2, prog: func(t *testing.T) conc.Program {
 			return conc.Program{
 				Setup: func() any {
 					w := newWorld(t, cfgFile(), "s1", "s2")
@@ -1043,7 +1083,10 @@ func templates() []template {
 				},
 				Finish: func(c any) conc.Outcome {
 					w := c.(*world)
-					return finish(w, func() { sessionEndMonitor(w, "s1", []string{"x"}, map[string]string{}, "grant-in-flight") })
+					return finish(w, func() {
+						sessionEndMonitor(w, "s1", []string{"x"}, map[string]string{}, "grant-in-flight")
+						unackedHoldMonitor(w, "x")
+					})
 				},
 			}
 		}},
@@ -1125,6 +1168,30 @@ func templates() []template {
 								w.v("conc:capacity:free-units", "lock \"x\" (size 1): its only hold was unlocked (answer: %s) and its 5 s lease has run out, but %d further TryLocks succeed instead of 1", w.summary(), free)
 							}
 						}
+					})
+				},
+			}
+		}},
+		{name: "destroy||blocked-lock(other session) (crash images)", props: []string{"C09", "C06"}, bound: 2, prog: func(t *testing.T) conc.Program {
+			// a session ends while another session's Lock waits for one of its holds: the clean-up hands the unit
+			// over, the waiter's grant is recorded and acknowledged - at no instant may the file list both holds
+			return conc.Program{
+				Setup: func() any {
+					w := newWorld(t, cfgFile(), "s1", "s2")
+					w.mustTry("s1", "x", nil, nil, "h")
+					w.mustTry("s1", "y", nil, nil, "hy")
+					w.enableSnapshots()
+					return w
+				},
+				Threads: []conc.Thread{
+					{Name: "L", Run: func(c any) { c.(*world).lock("L", "s2", "x", nil, nil, nil, "l") }},
+					{Name: "D", Run: func(c any) { c.(*world).disconnect("D", "s1") }},
+				},
+				Finish: func(c any) conc.Outcome {
+					w := c.(*world)
+					return finish(w, func() {
+						crashMonitor(w, map[string]int{"x": 1, "y": 1}, false)
+						sessionEndMonitor(w, "s1", []string{"x", "y"}, map[string]string{"x": "l"}, "waiter-behind-ended-session")
 					})
 				},
 			}
